@@ -76,6 +76,9 @@ func init() {
 			RunE1(c, "C08", append(append([]Ob{}, obs...), sharedObs["C08"]...))
 			RunFieldSources(c, "E8.access-token.keyset-default", "op", "Provider", "accessTokenKeySet", "OpenIDKeySet", "JWT access tokens must be verified with the provider's own (storage-backed) key set unless the application explicitly supplies one")
 			RunIssuerCoverage(c, "E7.routes.issuer-interceptor", []string{"KeysEndpoint"}) // handlers verify tokens / assertions against the issuer the interceptor puts into the context
+			RunTypeWriteDiscipline(c, "E6.introspection-response-writers", "oidc", "IntrospectionResponse", []string{"op"},
+				map[string][]string{"Active": {"op.Introspect", "op.(*LegacyServer).Introspect"}},
+				"an inactive introspection answer discloses nothing but active:false - the provider itself fills in no field of the response except Active (after the storage accepted the token for this caller); everything else is written by Storage.SetIntrospectionFromToken")
 			RunFieldWriters(c, "E6.active-writers", "oidc", "IntrospectionResponse", "Active", []string{"op.Introspect", "op.(*LegacyServer).Introspect"}, "Active=true must stay behind the introspection obligations")
 		},
 	})
